@@ -264,7 +264,13 @@ def check_argmin_fold(facts, ft, measure, source):
     init = c.args[1]
     while init[0] in ("ref", "deref"):
         init = init[2] if init[0] == "ref" else init[1]
-    if not (init[0] == "agg" and init[1] == "tuple" and len(init[3]) == 2 and const_float(init[3][0]) == float("inf")):
+    # the carried pair holds the minimum in one slot and the face in the other, in either order: the slot that starts at
+    # +infinity is the minimum
+    di = None
+    if init[0] == "agg" and init[1] == "tuple" and len(init[3]) == 2:
+        infs = [k_ for k_ in (0, 1) if const_float(init[3][k_]) == float("inf")]
+        di = infs[0] if len(infs) == 1 else None
+    if di is None:
         return False, "fold does not start from (+infinity, some face): %s" % fmt(init)[:80]
     clos = c.args[2]
     while clos[0] in ("ref", "deref"):
@@ -278,7 +284,7 @@ def check_argmin_fold(facts, ft, measure, source):
         return False, "fold step must contain exactly one strict comparison (found %d tests)" % len(sw)
     b, d = cmp_[0]
     x, y = (d[2], d[3]) if d[1] == "Lt" else (d[3], d[2])
-    best = ("field", ("param", 2), 0)
+    best = ("field", ("param", 2), di)
     if not (x[0] == "call" and x[1] == measure and strip_site(y) == strip_site(best)):
         return False, "fold step compares %s with %s, expected %s(point, candidate.axis) < carried minimum" % (fmt(x)[:50], fmt(y)[:40], measure.split("::")[-1])
     pt = closure_subst(facts, clos[2], x[2][0])
@@ -295,14 +301,20 @@ def check_argmin_fold(facts, ft, measure, source):
             t = t[2] if t[0] == "ref" else t[1]
         return (t[3][0], t[3][1]) if t[0] == "agg" and t[1] == "tuple" and len(t[3]) == 2 else None
     py, pn = [pair(t) for t in yes], [pair(t) for t in no]
-    ok_yes = len(py) == 1 and py[0] is not None and strip_site(py[0][0]) == strip_site(x) and any(z == ("param", 3) for z in walk(py[0][1])) and not any(z == ("param", 2) for z in walk(py[0][1]))
-    ok_no = len(pn) == 1 and pn[0] is not None and strip_site(pn[0][0]) == strip_site(best) and strip_site(pn[0][1]) == strip_site(("field", ("param", 2), 1))
+    ok_yes = len(py) == 1 and py[0] is not None and strip_site(py[0][di]) == strip_site(x) and any(z == ("param", 3) for z in walk(py[0][1 - di])) and not any(z == ("param", 2) for z in walk(py[0][1 - di]))
+    ok_no = len(pn) == 1 and pn[0] is not None and strip_site(pn[0][0]) == strip_site(("field", ("param", 2), 0)) and strip_site(pn[0][1]) == strip_site(("field", ("param", 2), 1))
+
+    def whole(t):
+        while t[0] in ("ref", "deref"):
+            t = t[2] if t[0] == "ref" else t[1]
+        return t == ("param", 2)
+    ok_no = ok_no or (len(no) == 1 and whole(no[0]))        # the carried pair handed back as it came
     if not (ok_yes and ok_no):
         return False, "fold step must return (new distance, candidate) when smaller and the carried pair otherwise: %s / %s" % ([fmt(t)[:60] for t in yes], [fmt(t)[:60] for t in no])
     # the function returns the face component of the fold result
     rts = [ft.return_term(rb) for rb in ft.return_blocks()]
     fold_t = ("call", c.callee, tuple(c.args), (ft.path, c.block))
-    ok_ret = len(rts) == 1 and any(z[0] == "field" and str(z[2]) == "1" and strip_site(z[1]) == strip_site(fold_t) for z in walk(rts[0]))
+    ok_ret = len(rts) == 1 and any(z[0] == "field" and str(z[2]) == str(1 - di) and strip_site(z[1]) == strip_site(fold_t) for z in walk(rts[0]))
     if not ok_ret:
         return False, "the face carried by the fold is not what is returned: %s" % [fmt(t)[:80] for t in rts]
     return True, "fold over every face of %s from (+inf, _): (minimum, face) replaced together exactly when %s(point, face.axis) is strictly smaller; the carried face is returned" % (
